@@ -321,6 +321,12 @@ func (c *Ctx) Ite(cond, a, b *Term) *Term {
 	if cond.Op == OpNot {
 		return c.Ite(cond.Args[0], b, a)
 	}
+	if a.Op == OpIte && a.Args[0] == cond {
+		return c.Ite(cond, a.Args[1], b)
+	}
+	if b.Op == OpIte && b.Args[0] == cond {
+		return c.Ite(cond, a, b.Args[2])
+	}
 	return c.mk(&Term{Op: OpIte, W: a.W, Args: []*Term{cond, a, b}})
 }
 
@@ -349,11 +355,11 @@ func (c *Ctx) Eq(a, b *Term) *Term {
 		}
 	}
 	// ite(c, k1, k2) == k  with constants
-	if b.IsConst() && a.Op == OpIte && a.Args[1].IsConst() && a.Args[2].IsConst() {
-		return c.Ite(a.Args[0], c.Eq(a.Args[1], b), c.Eq(a.Args[2], b))
+	if b.IsConst() && isIteConst(a, 4) {
+		return c.MapIte(a, func(x *Term) *Term { return c.Eq(x, b) })
 	}
-	if a.IsConst() && b.Op == OpIte && b.Args[1].IsConst() && b.Args[2].IsConst() {
-		return c.Ite(b.Args[0], c.Eq(b.Args[1], a), c.Eq(b.Args[2], a))
+	if a.IsConst() && isIteConst(b, 4) {
+		return c.MapIte(b, func(x *Term) *Term { return c.Eq(a, x) })
 	}
 	// zext(x) == const
 	if b.IsConst() && a.Op == OpZExt {
@@ -468,6 +474,14 @@ func (c *Ctx) bin(op Op, a, b *Term) *Term {
 			}
 		}
 		return c.BV(w, r)
+	}
+	if w <= 64 {
+		if b.IsConst() && isIteConst(a, 4) {
+			return c.MapIte(a, func(x *Term) *Term { return c.bin(op, x, b) })
+		}
+		if a.IsConst() && isIteConst(b, 4) {
+			return c.MapIte(b, func(x *Term) *Term { return c.bin(op, a, x) })
+		}
 	}
 	// identities
 	switch op {
@@ -620,6 +634,9 @@ func (c *Ctx) BNot(a *Term) *Term {
 	if a.Op == OpBVNot {
 		return a.Args[0]
 	}
+	if isIteConst(a, 4) {
+		return c.MapIte(a, func(x *Term) *Term { return c.BNot(x) })
+	}
 	return c.mk(&Term{Op: OpBVNot, W: a.W, Args: []*Term{a}})
 }
 
@@ -647,6 +664,12 @@ func (c *Ctx) cmp(op Op, a, b *Term) *Term {
 	}
 	if a == b {
 		return c.Bool(op == OpBVULE || op == OpBVSLE)
+	}
+	if b.IsConst() && isIteConst(a, 4) {
+		return c.MapIte(a, func(x *Term) *Term { return c.cmp(op, x, b) })
+	}
+	if a.IsConst() && isIteConst(b, 4) {
+		return c.MapIte(b, func(x *Term) *Term { return c.cmp(op, a, x) })
 	}
 	switch op {
 	case OpBVULT:
@@ -795,7 +818,7 @@ func (c *Ctx) Extract(a *Term, hi, lo int) *Term {
 	case OpBVNot:
 		return c.BNot(c.Extract(a.Args[0], hi, lo))
 	case OpIte:
-		if a.Args[1].IsConst() || a.Args[2].IsConst() {
+		if a.Args[1].IsConst() || a.Args[2].IsConst() || isIteConst(a, 4) {
 			return c.Ite(a.Args[0], c.Extract(a.Args[1], hi, lo), c.Extract(a.Args[2], hi, lo))
 		}
 	case OpBVAdd, OpBVSub, OpBVMul:
@@ -819,6 +842,9 @@ func (c *Ctx) ZExt(a *Term, w int) *Term {
 	if a.Op == OpZExt {
 		return c.ZExt(a.Args[0], w)
 	}
+	if w <= 64 && isIteConst(a, 4) {
+		return c.MapIte(a, func(x *Term) *Term { return c.ZExt(x, w) })
+	}
 	return c.mk(&Term{Op: OpZExt, W: w, Args: []*Term{a}, P1: w - a.W})
 }
 
@@ -837,6 +863,9 @@ func (c *Ctx) SExt(a *Term, w int) *Term {
 	}
 	if a.Op == OpSExt {
 		return c.SExt(a.Args[0], w)
+	}
+	if w <= 64 && isIteConst(a, 4) {
+		return c.MapIte(a, func(x *Term) *Term { return c.SExt(x, w) })
 	}
 	return c.mk(&Term{Op: OpSExt, W: w, Args: []*Term{a}, P1: w - a.W})
 }
@@ -869,4 +898,23 @@ func (c *Ctx) PopCount(a *Term) *Term {
 		sum = c.Add(sum, c.ZExt(c.Extract(a, i, i), w))
 	}
 	return sum
+}
+
+// IsIteConst reports whether t is a (small) ite tree whose leaves are all constants.
+func IsIteConst(t *Term) bool { return isIteConst(t, 4) }
+
+func isIteConst(t *Term, depth int) bool {
+	if t.Op != OpIte || depth == 0 {
+		return false
+	}
+	a, b := t.Args[1], t.Args[2]
+	return (a.IsConst() || isIteConst(a, depth-1)) && (b.IsConst() || isIteConst(b, depth-1))
+}
+
+// MapIte applies f to every leaf of an ite tree and rebuilds the tree.
+func (c *Ctx) MapIte(t *Term, f func(*Term) *Term) *Term {
+	if t.Op == OpIte && !t.IsConst() {
+		return c.Ite(t.Args[0], c.MapIte(t.Args[1], f), c.MapIte(t.Args[2], f))
+	}
+	return f(t)
 }
